@@ -146,6 +146,13 @@ CHECKS = {
             'with all four operations, uniform raw velocity; negative parameters must select the adiabatic / global value. For the mass conserving and plate model slab temperatures a local potential temperature over a different global one must equal the world with that global value.',
             'Parameter alphabets as listed in the source of the check; plate-model probes stay 10 km away from the ridge axis (truncated series); 1e-9 relative tolerance (1e-5 for the two plate models).',
             'DESIGN.md section 3 C05'),
+    'C20': ('exploration', 'E1',
+            'bounded exhaustive enumeration: full product of oceanic cooling models x end-member temperatures x plate thickness x ridge geometry x spreading velocity (uniform / varying) probed on a lattice that includes the ridge axis; all parameter tuples of the mass conserving and plate model slab temperatures within 2 | 3 deviations of a default (14 coordinates); linear models of all feature types; envelope / monotonicity / boundary-value oracles',
+            'Every oceanic half space, plate and constant-age plate model of the product is queried on 16 x 5 surface positions (on the ridge axis, 0.1 m, 100 m and 1 km from it, far away, on both sides) x 43 depths: the temperature must lie '
+            'between top and bottom temperature, rise with depth, fall with distance from the ridge, and attain the prescribed temperatures at the model top and (plate models) bottom, also where the max depth is given at points. Every slab model tuple within the '
+            'deviation bound is probed on a 37 x 57 x 2 lattice and compared with surface temperature <= T <= max(ambient, adiabat), the ambient temperature coming from a twin world without the slab model; comparisons are negated so that NaN fails. Linear models must stay between and attain their two temperatures.',
+            'Alphabets as listed in the source; probes within 20 m of the ridge axis are exempt from the top-temperature clause of the half space model (singular point). Two known findings (ripples of the truncated plate-model series next to the axis; spline undershoot of the mass conserving model).',
+            'DESIGN.md section 3 C20'),
 }
 NOT_YET = {}
 
